@@ -13,10 +13,12 @@
    Ghost state: per cursor the number of close() calls and of releases of its partitions, the
    net acquisition count per partition at the ItFactory, the actor table.
 
-   Two repairs of provider.go are visible as the `variant` the step function takes: `code_variant` is
+   Three repairs of provider.go are visible as the `variant` the step function takes: `code_variant` is
    the code as it is (GetOrCreate refuses to insert under an id that got cached meanwhile, Release
-   leaves a cache entry that belongs to another cursor alone, Shutdown evicts the cache);
-   `old_variant` is the code before them (kept for the refutations in props/C15.v). *)
+   leaves a cache entry that belongs to another cursor alone, Shutdown evicts the cache, GetOrCreate
+   drops a cached idle cursor whose position differs from the requested one instead of re-positioning
+   it - the repair of C03's stale read-ahead); `old_variant` is the code before them (kept for the
+   refutations in props/C15.v). *)
 From LR Require Export lib.Base model.CList.
 
 (* ---- cursor.State.Pos, abstracted: "" | "tail" | a well-formed position | anything else ---- *)
@@ -178,10 +180,13 @@ Inductive op :=
 Record variant := {
   v_owner : bool;    (* GetOrCreate's insert region refuses if p.curs[id] exists by now; Release treats a cache entry
                         whose holder carries another cursor as "not in the cache" (provider.go, fix C15-sameid-race) *)
-  v_evict : bool     (* Shutdown evicts the whole cache with sweepBySize (fix C15-shutdown-close) *)
+  v_evict : bool;    (* Shutdown evicts the whole cache with sweepBySize (fix C15-shutdown-close) *)
+  v_droppos : bool   (* GetOrCreate closes and drops a cached idle cursor (of the same query) whose state.Pos differs from the
+                        requested Pos and goes on as on a miss, with the same id (fix C03-stale-peek-on-retried-page); before, ApplyState
+                        re-positioned the cached cursor *)
 }.
-Definition code_variant : variant := {| v_owner := true; v_evict := true |}.
-Definition old_variant : variant := {| v_owner := false; v_evict := false |}.
+Definition code_variant : variant := {| v_owner := true; v_evict := true; v_droppos := true |}.
+Definition old_variant : variant := {| v_owner := false; v_evict := false; v_droppos := false |}.
 
 (* ---- the ring statements of provider.go, on the ring store ---- *)
 (* p.busy = p.busy.TearOff(e); p.busy = e.Append(p.busy) *)
@@ -222,8 +227,24 @@ Definition touch (s : prov) (e : nat) (busy : bool) (exp : Z) : prov :=
   let s1 := set_val s e {| h_busy := busy; h_cur := h_cur ch; h_exp := exp |} in
   set_rs s1 (rs_touch (p_rs s1) e).
 
-(* GetOrCreate, first locked region (provider.go:90-111) plus the id assignment of lines 118-120 *)
-Definition get_lookup (s : prov) (r : nat) (id : N) (cache : bool) (q : N) (qr : qres) (p : pos) (fresh : N)
+(* ch.cur = nil *)
+Definition clear_cur (s : prov) (e : nat) : prov :=
+  let ch := p_vals s e in
+  set_val s e {| h_busy := h_busy ch; h_cur := None; h_exp := h_exp ch |}.
+
+(* the cached idle cursor stands at another position than the request names:
+   ch.cur.close(); delete(p.curs, state.Id); ch.cur = nil; p.busy = p.busy.TearOff(e); the holder goes to the free pool *)
+Definition drop_idle (s : prov) (e c : nat) (id : N) : prov :=
+  let s1 := close_cur s c in
+  let s2 := set_curs s1 (map_del (p_curs s1) id) in
+  let s3 := clear_cur s2 e in
+  let s4 := set_rs s3 (rs_remove (p_rs s3) e) in
+  set_rs s4 (rs_push_free (p_rs s4) e).
+
+(* GetOrCreate, first locked region plus the id assignment that follows it. With `drop`: a cached idle cursor
+   of the requested query whose state.Pos is not the requested one (where ApplyState would re-position it) is dropped
+   and the request goes on as a miss under the same id *)
+Definition get_lookup (drop : bool) (s : prov) (r : nat) (id : N) (cache : bool) (q : N) (qr : qres) (p : pos) (fresh : N)
   : outcome (prov * res) :=
   match act_get (p_act s) r with
   | AIdle =>
@@ -235,8 +256,11 @@ Definition get_lookup (s : prov) (r : nat) (id : N) (cache : bool) (q : N) (qr :
       let ch := p_vals s e in
       if h_busy ch then Ok (s, RRefused)
       else match h_cur ch with
-           | None => Panic                                   (* ch.cur.ApplyState on a nil cursor *)
+           | None => Panic                                   (* ch.cur.state / ch.cur.ApplyState on a nil cursor *)
            | Some c =>
+             if drop && N.eqb (c_query (p_cur s c)) q && negb (pos_eqb (c_spos (p_cur s c)) p)
+             then Ok (set_actor (drop_idle s e c id) r (AMiss id q qr p cache), RMiss)
+             else
              match apply_state (p_cur s c) id q p with
              | None => miss fresh                            (* state.Id = 0: a new cursor is created *)
              | Some cu =>
@@ -320,10 +344,6 @@ Definition release (own : bool) (s : prov) (r : nat) : outcome (prov * res) :=
   | _ => Ok (s, RNone)
   end.
 
-Definition clear_cur (s : prov) (e : nat) : prov :=
-  let ch := p_vals s e in
-  set_val s e {| h_busy := h_busy ch; h_cur := None; h_exp := h_exp ch |}.
-
 (* sweepBySize (provider.go:205-221); every round takes one element out of the ring, so
    fuel = number of allocated elements + 1 is never exhausted *)
 Fixpoint sweep_size_loop (fuel : nat) (s : prov) : outcome prov :=
@@ -391,7 +411,7 @@ Definition shutdown (ev : bool) (s : prov) : outcome prov :=
 
 Definition step (v : variant) (s : prov) (o : op) : outcome (prov * res) :=
   match o with
-  | OLookup r id cache q qr p fresh => get_lookup s r id cache q qr p fresh
+  | OLookup r id cache q qr p fresh => get_lookup (v_droppos v) s r id cache q qr p fresh
   | OCreate r => get_create s r
   | OInsert r => get_insert (v_owner v) s r
   | OUse r k => use s r k
